@@ -267,6 +267,13 @@ def special_rulesets(work):
     base = [('K4A2', 0.5), ('X1A2', 0.25), ('A2K4', 0.125), ('K4A2O1', 0.125)]
     rulesets.write_ruleset(d, termu, base, omen_prob=[(1, 0.5), (2, 0.25)], omen_keyspace=[(1, 1), (2, 1)])
     out.append((d, {'kind': 'capitals_outside_words', 'base': base}))
+    # a variable with several groups to the RIGHT of one that has a single group (every mask list under --all_lower): a restored
+    # session must walk on past the exhausted position
+    termr = dict(termu, D1=[('1', 0.5), ('2', 0.3), ('3', 0.2)])
+    d = os.path.join(work, 'groups_right_of_masks')
+    base = [('A2K4', 0.5), ('A2D1', 0.25), ('D1A2', 0.125), ('M', 0.125)]
+    rulesets.write_ruleset(d, termr, base, omen_prob=[(1, 0.5), (2, 0.25)], omen_keyspace=[(1, 1), (2, 1)])
+    out.append((d, {'kind': 'groups_right_of_masks', 'base': base}))
     # a dominant Markov structure next to ONE structure whose terminals all have probability 1: p / (1 - P(M)) rounds to a float
     # just above 1.0 (0.1 / (1.0 - 0.9) = 1.0000000000000002) - the rescaled pre-terminal must still be emitted
     term1 = {'A2': [('ab', 1.0)], 'C2': [('LL', 1.0)], 'D1': [('7', 1.0)]}
@@ -356,7 +363,8 @@ def main(pid, tier, seed):
     rcopy = core.repo_copy('cli')
     jobs = []
     heavy = [x for x in rdirs if str(x[1].get('kind', '')).startswith('m_heavy')][:3]     # p / (1 - P(M)) rounding above 1.0
-    cli_sets = (rdirs[:6] + [x for x in heavy if x not in rdirs[:6]]) if tier == 'quick' else rdirs[:6] + rdirs[6:40]
+    extra_ = [x for x in rdirs if x[1].get('kind') in ('capitals_outside_words', 'groups_right_of_masks')]
+    cli_sets = (rdirs[:6] + [x for x in heavy + extra_ if x not in rdirs[:6]]) if tier == 'quick' else rdirs[:6] + [x for x in extra_ if x not in rdirs[:40]] + rdirs[6:40]
     for k, (d, desc) in enumerate(cli_sets):
         name = 'v%d' % k
         os.symlink(d, os.path.join(rcopy, 'Rules', name))
@@ -369,20 +377,40 @@ def main(pid, tier, seed):
                 continue   # loader failure under the flag is reported by the stream trace
             if len(ref) > 1500:
                 continue
-            jobs.append((name, flags, ref, desc, 'sess_%d_%s' % (k, len(flags) * 10 + len(flags[0]))))
+            jobs.append((name, flags, ref, desc, 'sess_%d_%s' % (k, len(flags) * 10 + len(flags[0])), 1))
+            if len(ref) >= 4:
+                # ... and a session that is QUIT in the middle of the run (a run that ends by --limit saves no position) and resumed
+                # with the flags taken from its save file: the restore walk then has popped nodes to walk through
+                from . import check_session
+                for cut in sorted({len(ref) // 3, len(ref) // 2, (3 * len(ref)) // 4} - {0}):
+                    fn_ = os.path.join(d, 'cut%d_%d.sav' % (len(flags), cut))
+                    r1 = session.run_session(ptq.load_pcfg(d, save_file=fn_, **kw), session.new_save_config(skip_brute=kw['skip_brute'], skip_case=kw['skip_case']),
+                                             fn_, quit_at_guess=cut)
+                    if not (r1['quit'] and r1['saves'] and r1['saves'][-1] >= cut):
+                        continue
+                    r2 = check_session.resume_to_end(d, fn_)
+                    tid += 1
+                    traces.append({'tid': tid, 'kind': 'resumed', 'first': [expand.cps(x) for x in r1['lines']], 'got': [expand.cps(x) for x in r2['lines']],
+                                   'ref': [expand.cps(x) for x in ref], 'cut': cut})
+                    meta[tid] = dict(desc, check='session started with %s, quit after %d guesses, resumed with the flags of the save file' % (' '.join(flags), cut),
+                                     got=len(r2['lines']), want=len(ref) - len(r1['lines']), got_head=r2['lines'][:3])
 
     def runjob(job):
-        name, flags, ref, desc, sname = job
-        session.cli(rcopy, 'pcfg_guesser.py', ['-r', name, '-s', sname, '-n', '1'] + flags, stdin='open')
+        name, flags, ref, desc, sname, cut = job
+        o1, err, code = session.cli(rcopy, 'pcfg_guesser.py', ['-r', name, '-s', sname, '-n', str(cut)] + flags, stdin='open')
         out, err, code = session.cli(rcopy, 'pcfg_guesser.py', ['-r', name, '-s', sname, '--load'], stdin='open')
-        return session.stdout_lines(out)
+        return session.stdout_lines(out), session.stdout_lines(o1)
 
     with ThreadPoolExecutor(core.NCPU) as ex:
         outs = list(ex.map(runjob, jobs))
-    for (name, flags, ref, desc, sname), so in zip(jobs, outs):
+    for (name, flags, ref, desc, sname, cut), (so, o1) in zip(jobs, outs):
         tid += 1
-        traces.append({'tid': tid, 'kind': 'lines', 'lines': [expand.cps(x) for x in so], 'ref': [expand.cps(x) for x in ref]})
-        meta[tid] = dict(desc, check='session started with %s, resumed with plain --load' % ' '.join(flags),
+        if cut == 1:
+            traces.append({'tid': tid, 'kind': 'lines', 'lines': [expand.cps(x) for x in so], 'ref': [expand.cps(x) for x in ref]})
+        else:
+            traces.append({'tid': tid, 'kind': 'resumed', 'first': [expand.cps(x) for x in o1], 'got': [expand.cps(x) for x in so],
+                           'ref': [expand.cps(x) for x in ref], 'cut': cut})
+        meta[tid] = dict(desc, check='session started with %s, cut after %d lines, resumed with plain --load' % (' '.join(flags), cut),
                          got=len(so), want=len(ref), got_head=so[:3], want_head=ref[:3])
 
     verdicts, st = core.validate_traces('TrLoader.tla', traces, chunk=400, timeout=300)
